@@ -112,6 +112,7 @@ let print_item show_exec = function
 
 let read_action () : float action =
   match next () with
+  | "settimer" -> let name = nnat () in ASetTimer (name, nflt ())
   | "cancel" -> ACancel (nnat ())
   | "send" -> let m = nnat () in ASend (m, (match next () with "none" -> None | d -> Some (nat_of_int (int_of_string d))))
   | "bcast" -> ABroadcast (nnat ())
@@ -183,6 +184,13 @@ let run_sim () =
     | "steps" -> `Steps (nint ())
     | "mixed" -> let n = nint () in let fuel = nint () in `Mixed (n, fuel)
     | "runrun" -> `RunRun (nint ())
+    | "drive" ->
+        let n = nint () in
+        `Drive (ntimes n (fun () ->
+          match next () with
+          | "step" -> DStep
+          | "ext" -> let nd = nnat () in let k = nint () in DExt (nd, ntimes k read_action)
+          | t -> failwith ("drive op: " ^ t)))
     | t -> failwith ("driver: " ^ t) in
   let show_exec = (match peek () with "SHOWEXEC" -> ignore (next ()); true | _ -> false) in
   expect "SCRIPT";
@@ -228,6 +236,22 @@ let run_sim () =
          pf "end %s iter %d draws %d\n" (if fin then (if s1.k_aborted then "aborted" else "done") else "outoffuel")
            (int_of_nat s1.k_iter) (int_of_nat s1.k_h.s_cursor)
        end
+   | `Drive ops ->
+       let s = ref s0 in
+       List.iter (fun o ->
+         (match o with
+          | DExt (nd, _) ->
+              (* the marker line is glue: node, and the time its provider reports (the clock, or 0 without a timer handler) *)
+              pf "cb %d %s ext\n" (int_of_nat nd) (hx (if has_timer cfg then !s.k_el.el_now else 0.0))
+          | DStep -> ());
+         let ((s1, items), r) = sim_drive1 fl cfg react kc !s o in
+         List.iter (print_item show_exec) items;
+         (match r with
+          | Some b -> pf "ret %s\n" (if s1.k_aborted then "raised" else if b then "true" else "false")
+          | None -> ());
+         s := s1) ops;
+       pf "end %s iter %d draws %d\n" (if !s.k_aborted then "aborted" else if !s.k_final then "done" else "running")
+         (int_of_nat !s.k_iter) (int_of_nat !s.k_h.s_cursor)
    | `Steps n ->
        let s = ref s0 in
        let k = ref 0 in
